@@ -149,15 +149,10 @@ class Markdown:
 
     def _image(self, value) -> str:
         (ident, _, keyvals), caption, (dest, typef) = value
-        # it seems like ident and keyvals are not relevant for markdown
-
-        if not caption:  # pragma: no cover
-            # not sure if this can be reached, just to be safe
-            raise ValueError("Figure missing a caption")
-
-        if not typef.startswith("fig:"):  # pragma: no cover
-            # not sure if this can be reached, just to be safe
-            raise ValueError(f"Cannot deal with figure of type '{typef}'")
+        # it seems like ident and keyvals are not relevant for markdown. typef is
+        # the title of the image; pandoc sets it to "fig:..." for an image that
+        # is alone in its paragraph. Images inside a line of text (e.g. badges)
+        # have another, usually empty, title and may have an empty alt text.
 
         caption = "".join(self.__call__(i) for i in caption)
         content = f"![{caption}]({dest})"
